@@ -203,5 +203,166 @@ theorem refusal12 (rev subs : List Nat) (h : 6 + 2 * subs.length > 0xFFFF) :
   rw [if_pos h]
   exact ⟨_, rfl⟩
 
+/-! ### GSUB 2.1 / 3.1 -/
+
+theorem seqOffsets_length : ∀ (seqs : List (List Nat)) (off : Nat), (seqOffsets seqs off).length = seqs.length
+  | [], _ => rfl
+  | _ :: rs, off => by simp [seqOffsets, seqOffsets_length rs]
+
+theorem seqOffsets_lt : ∀ (seqs : List (List Nat)) (off : Nat), ∀ w ∈ seqOffsets seqs off, w < 65536
+  | [], _, w, hw => by simp [seqOffsets] at hw
+  | _ :: rs, off, w, hw => by
+    simp only [seqOffsets, List.mem_cons] at hw
+    rcases hw with rfl | hw
+    · exact w16_lt _
+    · exact seqOffsets_lt rs _ w hw
+
+theorem seqWords_cons (r : List Nat) (rs : List (List Nat)) :
+    seqWords (r :: rs) = w16 r.length :: (r ++ seqWords rs) := by
+  simp [seqWords]
+
+theorem seqWords_lt (seqs : List (List Nat)) (h : ∀ r ∈ seqs, ∀ x ∈ r, x < 65536) :
+    ∀ w ∈ seqWords seqs, w < 65536 := by
+  induction seqs with
+  | nil => intro w hw; simp [seqWords] at hw
+  | cons r rs ih =>
+    intro w hw
+    rw [seqWords_cons] at hw
+    simp only [List.mem_cons, List.mem_append] at hw
+    rcases hw with rfl | hw | hw
+    · exact w16_lt _
+    · exact h r (by simp) w hw
+    · exact ih (fun r' hr' => h r' (by simp [hr'])) w hw
+
+/-- the sequence reader finds every sequence at the offset the encoder wrote for it -/
+theorem readSeqs_spec (c : Bytes) : ∀ (seqs : List (List Nat)) (P T : List Nat),
+    (∀ w ∈ P, w < 65536) → (∀ w ∈ T, w < 65536) → (∀ r ∈ seqs, ∀ x ∈ r, x < 65536) →
+    2 * P.length + 2 * (seqWords seqs).length < 65536 →
+    readSeqs (wordsToBytes (P ++ (seqWords seqs ++ T)) ++ c) (seqOffsets seqs (2 * P.length)) = .ok seqs
+  | [], _, _, _, _, _, _ => rfl
+  | r :: rs, P, T, hP, hT, hS, hfit => by
+    rw [seqWords_cons] at hfit
+    simp only [List.length_cons, List.length_append] at hfit
+    have hr : r.length < 65536 := by omega
+    simp only [seqOffsets, readSeqs]
+    rw [w16_of_lt (by omega)]
+    -- the counted array at the offset
+    have hrc : readCounted (wordsToBytes (P ++ (seqWords (r :: rs) ++ T)) ++ c) (2 * P.length) = .ok r := by
+      unfold readCounted
+      rw [drop_wordsToBytes_append']
+      have hlt : ∀ w ∈ seqWords (r :: rs) ++ T, w < 65536 := by
+        intro w hw
+        rw [List.mem_append] at hw
+        rcases hw with hw | hw
+        · exact seqWords_lt _ hS w hw
+        · exact hT w hw
+      rw [bytesToWords_append _ hlt, seqWords_cons, w16_of_lt hr]
+      simp only [List.cons_append, List.append_assoc]
+      rw [if_neg (by simp), List.take_left]
+    rw [hrc]
+    -- the remaining sequences: the prefix grows by this one
+    have ih := readSeqs_spec c rs (P ++ (r.length :: r)) T
+      (by intro w hw
+          simp only [List.mem_append, List.mem_cons] at hw
+          rcases hw with hw | rfl | hw
+          · exact hP w hw
+          · exact hr
+          · exact hS r (by simp) w hw)
+      hT (fun r' hr' => hS r' (by simp [hr']))
+      (by simp only [List.length_append, List.length_cons]; omega)
+    have e1 : P ++ (seqWords (r :: rs) ++ T) = (P ++ (r.length :: r)) ++ (seqWords rs ++ T) := by
+      rw [seqWords_cons, w16_of_lt hr]; simp
+    have e2 : 2 * P.length + 2 + 2 * r.length = 2 * (P ++ (r.length :: r)).length := by
+      simp only [List.length_append, List.length_cons]; omega
+    rw [e1, e2, ih]
+
+theorem seqTotal_eq (seqs : List (List Nat)) :
+    seqTotal seqs = 2 * (1 :: seqTotal seqs :: seqs.length ::
+      (seqOffsets seqs (6 + 2 * seqs.length) ++ seqWords seqs)).length := by
+  simp only [seqTotal, List.length_cons, List.length_append, seqOffsets_length]
+  omega
+
+theorem roundtripSeq (tp : Nat) (htp : tp = 2 ∨ tp = 3) (rev : List Nat) (seqs : List (List Nat))
+    (h : Cov.Valid rev) (hl : seqs.length = rev.length) (hs : ∀ r ∈ seqs, ∀ x ∈ r, x < 65536)
+    (hfit : seqTotal seqs ≤ 0xFFFF) :
+    ∃ b, encodeSeq rev seqs = .ok b ∧ readSubtable tp b = .ok (.seq tp rev.zipIdx seqs) ∧
+      encodeLenSeq rev seqs = .ok b.length := by
+  have hfit' := hfit
+  simp only [seqTotal] at hfit'
+  refine ⟨wordsToBytes (1 :: seqTotal seqs :: seqs.length ::
+    (seqOffsets seqs (6 + 2 * seqs.length) ++ seqWords seqs)) ++ wordsToBytes (Cov.encodeW rev), ?_, ?_, ?_⟩
+  · simp only [encodeSeq]
+    rw [if_neg (by omega), Cov.encode_eq rev h, w16_of_lt (by omega), w16_of_lt (by omega)]
+    rfl
+  · have hlt : ∀ w ∈ 1 :: seqTotal seqs :: seqs.length ::
+        (seqOffsets seqs (6 + 2 * seqs.length) ++ seqWords seqs), w < 65536 := by
+      intro w hw
+      simp only [List.mem_cons, List.mem_append] at hw
+      rcases hw with rfl | rfl | rfl | hw | hw
+      · decide
+      · omega
+      · omega
+      · exact seqOffsets_lt _ _ w hw
+      · exact seqWords_lt _ hs w hw
+    have hw : bytesToWords (wordsToBytes (1 :: seqTotal seqs :: seqs.length ::
+        (seqOffsets seqs (6 + 2 * seqs.length) ++ seqWords seqs)) ++ wordsToBytes (Cov.encodeW rev)) =
+        1 :: seqTotal seqs :: seqs.length ::
+          (seqOffsets seqs (6 + 2 * seqs.length) ++ seqWords seqs ++ Cov.encodeW rev) := by
+      rw [bytesToWords_append _ hlt, bytesToWords_wordsToBytes _ (Cov.encodeW_lt rev h)]
+      simp
+    have hdrop : (wordsToBytes (1 :: seqTotal seqs :: seqs.length ::
+        (seqOffsets seqs (6 + 2 * seqs.length) ++ seqWords seqs)) ++
+        wordsToBytes (Cov.encodeW rev)).drop (seqTotal seqs) = wordsToBytes (Cov.encodeW rev) := by
+      have e := seqTotal_eq seqs
+      generalize seqTotal seqs = t at e ⊢
+      rw [e]
+      exact drop_wordsToBytes_append _ _
+    have hrd : Cov.read (wordsToBytes (Cov.encodeW rev)) = .ok rev.zipIdx := by
+      unfold Cov.read
+      rw [bytesToWords_wordsToBytes _ (Cov.encodeW_lt rev h)]
+      exact (Cov.readW_encodeW rev h).1
+    have hlen : ¬ (seqOffsets seqs (6 + 2 * seqs.length) ++ seqWords seqs ++ Cov.encodeW rev).length
+        < seqs.length := by simp [seqOffsets_length]
+    have htake : (seqOffsets seqs (6 + 2 * seqs.length) ++ seqWords seqs ++ Cov.encodeW rev).take seqs.length
+        = seqOffsets seqs (6 + 2 * seqs.length) := by
+      rw [List.append_assoc]
+      have := seqOffsets_length seqs (6 + 2 * seqs.length)
+      generalize seqOffsets seqs (6 + 2 * seqs.length) = offs at this ⊢
+      rw [← this]
+      exact List.take_left
+    have hseqs := readSeqs_spec (wordsToBytes (Cov.encodeW rev)) seqs
+      (1 :: seqTotal seqs :: seqs.length :: seqOffsets seqs (6 + 2 * seqs.length)) []
+      (by intro w hw
+          simp only [List.mem_cons] at hw
+          rcases hw with rfl | rfl | rfl | hw
+          · decide
+          · omega
+          · omega
+          · exact seqOffsets_lt _ _ w hw)
+      (by simp) hs
+      (by simp only [List.length_cons, seqOffsets_length]; omega)
+    have e3 : 2 * (1 :: seqTotal seqs :: seqs.length :: seqOffsets seqs (6 + 2 * seqs.length)).length
+        = 6 + 2 * seqs.length := by
+      simp only [List.length_cons, seqOffsets_length]; omega
+    rw [e3] at hseqs
+    simp only [List.append_nil, List.cons_append] at hseqs
+    have hfmt : ((tp == 1) && true) = false := by rcases htp with rfl | rfl <;> rfl
+    have hfmt2 : ((tp == 2 || tp == 3) && true) = true := by rcases htp with rfl | rfl <;> rfl
+    simp only [readSubtable, hw, readSeq, hdrop, hrd, hlen, if_false, htake]
+    rw [prune_same _ _ (by simp [hl, seqOffsets_length])]
+    simp only [hseqs]
+    rcases htp with rfl | rfl <;> simp
+  · simp only [encodeLenSeq, Cov.encodeLen_eq rev h, List.length_append, length_wordsToBytes,
+      ← Cov.encodeW_length rev h]
+    have := seqTotal_eq seqs
+    congr 1
+    omega
+
+theorem refusalSeq (rev : List Nat) (seqs : List (List Nat)) (h : seqTotal seqs > 0xFFFF) :
+    ∃ s, encodeSeq rev seqs = .panic s := by
+  simp only [encodeSeq]
+  rw [if_pos h]
+  exact ⟨_, rfl⟩
+
 end Gsub
 end SfntV.Otl
